@@ -2,15 +2,16 @@
 From Coq Require Import List NArith Bool.
 From Frugal Require Import Bytes Wire Skip Values Desc Spec Encode Decode Checks Tags State Bitset Alloc DescMap Conc LegacyDefs.
 From Frugal.gen Require Import Params.
-From Frugal.proofs Require Import GenParams GenTables Corollaries.
+From Frugal.proofs Require Import GenDecParams GenTables Corollaries.
 From Frugal.props Require Import Examples.
-From Frugal.proofs Require Import TwoHop.
+From Frugal.proofs Require Import TwoHop UnknownProofs.
+From Frugal Require Import Unknown.
 Import ListNotations.
 
 (* after decoding a well-formed message, the holder is the concatenation, in message order, of
    exactly the fields the schema does not recognise; untouched when there are none or no holder *)
 Theorem C11_holder_exact : forall env pool sid sd fs rest fs0 h0 cur h n rest',
-  params_ok = true -> env_ok env = true -> wf (WStruct fs []) = true -> lookup_sd env sid = Some sd ->
+  dec_params_ok = true -> env_ok env = true -> wf (WStruct fs []) = true -> lookup_sd env sid = Some sd ->
   (need env (TStruct sid) (WStruct fs []) <= S (N.to_nat maxDepthLimit))%nat ->
   (skipped_depth env (TStruct sid) (WStruct fs []) <= 63)%nat ->
   decode_object env pool sid (put (WStruct fs []) ++ rest) (VT fs0 h0) = DOk (VT cur h, n) rest' ->
@@ -20,7 +21,7 @@ Print Assumptions C11_holder_exact.
 
 (* the encoder re-emits the holder verbatim before STOP and EncodedSize counts it *)
 Theorem C11_reencoded : forall env sid sd fs h,
-  params_ok = true -> tables_ok = true -> env_ok env = true -> lookup_sd env sid = Some sd -> sholder sd = true ->
+  enc_params_ok = true -> tables_ok = true -> env_ok env = true -> lookup_sd env sid = Some sd -> sholder sd = true ->
   has_type env (TStruct sid) (VT fs h) = true ->
   append_struct env sid (VT fs h) = put_fields (emitted env sd fs) ++ h ++ [cSTOP]
   /\ encoded_size env sid (VT fs h) = len (put_fields (emitted env sd fs) ++ h ++ [cSTOP]).
@@ -29,7 +30,7 @@ Proof. exact holder_reencoded. Qed.
 (* one hop through an intermediary: what it re-emits is the well-formed message made of its known
    fields followed by the unknown ones, byte for byte *)
 Theorem C11_one_hop : forall env sid sd fs fs0 cur h,
-  params_ok = true -> tables_ok = true -> env_ok env = true -> lookup_sd env sid = Some sd -> sholder sd = true ->
+  enc_params_ok = true -> tables_ok = true -> env_ok env = true -> lookup_sd env sid = Some sd -> sholder sd = true ->
   absorb_top env sid (WStruct fs []) (VT fs0 []) = AOk (VT cur h) ->
   has_type env (TStruct sid) (VT cur h) = true ->
   h = put_fields (filter (skipped sd) fs)
@@ -53,7 +54,7 @@ Proof. vm_compute. reflexivity. Qed.
    the intermediary's re-encoding of r with the writer's schema gives exactly what decoding the
    original message gives: norm_top v.  EncodedSize of r is exact. *)
 Theorem C11_two_hops : forall n env pool pool' sidW sidR v r k,
-  params_ok = true -> tables_ok = true -> env_ok env = true -> init_ok env = true ->
+  dec_params_ok = true -> tables_ok = true -> env_ok env = true -> init_ok env = true ->
   hop_checks n env sidW sidR = true -> hop_value_ok env sidW v = true ->
   (2 * vdepth v + 2 <= S (N.to_nat maxDepthLimit))%nat -> (2 * vdepth r + 2 <= S (N.to_nat maxDepthLimit))%nat ->
   decode_object env pool sidR (append_struct env sidW v) (fresh env sidR) = DOk (r, k) [] ->
@@ -66,7 +67,7 @@ Print Assumptions C11_two_hops.
 (* the same on the reference level: what the intermediary writes is the well-formed message of its
    known fields followed by the unknown ones, and the writer-schema reader cannot tell the difference *)
 Theorem C11_two_hops_reference : forall n env sidW sidR v r,
-  params_ok = true -> env_ok env = true -> init_ok env = true ->
+  dec_params_ok = true -> env_ok env = true -> init_ok env = true ->
   hop_checks n env sidW sidR = true -> hop_value_ok env sidW v = true ->
   absorb_top env sidR (denote env (TStruct sidW) v) (fresh env sidR) = AOk r ->
   exists sdR, lookup_sd env sidR = Some sdR
@@ -94,7 +95,22 @@ Example C11_needs_holder :
   /\ direct ce_holder_env 0 v = DOk (VT [VS 1; VS 2] [], 15) [].
 Proof. exact two_hop_needs_holder. Qed.
 
+(* ---- the pooled recorder of skipped extents (internal/reflect/unknownfields.go; Unknown.v) ----
+   one decode's use of it -- Reset on acquire, one Add per skipped field, Copy when Size() > 0 --
+   returns exactly the extents that decode recorded, in order: nothing of an earlier decode,
+   whatever state the pooled object was left in (p), and nothing of the uninitialised allocation
+   (junk) *)
+Theorem C11_recorder_exact : forall p b adds junk g,
+  gather b adds = Some g -> uf_session p b adds junk = Some g.
+Proof. exact session_exact. Qed.
+Print Assumptions C11_recorder_exact.
+
+Theorem C11_recorder_size : forall p adds,
+  uf_size (fold_left (fun q a => uf_add q (fst a) (snd a)) adds (uf_reset p)) = sum_sz adds.
+Proof. exact session_size. Qed.
+
 (* the side conditions on the generated constants and tables that the theorems above assume hold
    for what the translator read from the sources of this run *)
-Theorem C11_side_conditions : params_ok = true /\ tables_ok = true.
-Proof. split; [exact params_ok_holds | exact tables_ok_holds]. Qed.
+(* [enc_params_ok], which C11_reencoded and C11_one_hop assume, is part of [dec_params_ok] (ParamsSplit.dec_enc) *)
+Theorem C11_side_conditions : dec_params_ok = true /\ tables_ok = true.
+Proof. split; [exact dec_params_ok_holds | exact tables_ok_holds]. Qed.
